@@ -34,6 +34,27 @@ func (i *Inst) probe() bool {
 	return err == nil && h.Status == 200
 }
 
+// probeTunnel: another client is still served as a remote desktop client - it gets a tunnel and an answer to its handshake.
+func (i *Inst) probeTunnel(s Script, rng *rand.Rand) bool {
+	pc := i.NewProtoCtx(s, rng)
+	oo := pc.OpenOpts()
+	oo.Transport = "ws"
+	t, _, err := i.Open(oo)
+	if err != nil || t == nil {
+		return false
+	}
+	defer t.Close()
+	caps := 0
+	if i.Cfg.TokenAuth {
+		caps = 2
+	}
+	if t.SendRaw(tsgu.Handshake(1, 0, 0, uint16(caps))) != nil {
+		return false
+	}
+	b, err := t.Recv(5 * time.Second)
+	return err == nil && len(b) >= 8
+}
+
 // RunHostile sends the input and records what happened to the processes.
 func (i *Inst) RunHostile(s *HsScript, tw *TraceWriter, rng *rand.Rand) error {
 	p := i.P
@@ -41,12 +62,28 @@ func (i *Inst) RunHostile(s *HsScript, tw *TraceWriter, rng *rand.Rand) error {
 	faults0 := len(p.Faults())
 	outcome := "served"
 	wedged := false
+	othersStarved := false
 	authAlive := true
 	cid := ""
 	switch s.Ep {
 	case "tunnel":
-		phases := map[string]int{"init": 0, "hs": 1, "created": 2, "authorized": 3, "channel": 4}
+		phases := map[string]int{"init": 0, "hs": 1, "created": 2, "authorized": 3, "channel": 4, "stalled": 4}
+		be := i.Backends["A"]
+		nb0 := be.NConns()
 		t, _, err := i.setup(s.Script, rng, phases[s.Phase])
+		if err == nil && s.Phase == "stalled" {
+			// the host streams and the client does not read: the relay is blocked inside its write when the input arrives
+			if !be.WaitConn(nb0+1, 5*time.Second) {
+				t.Close()
+				return fmt.Errorf("host saw no connection")
+			}
+			stop, serr := i.stallRelay(t, be.Conn(nb0), mark)
+			if serr != nil {
+				t.Close()
+				return serr
+			}
+			defer stop()
+		}
 		if err != nil {
 			// the set-up itself failed: whether that is a fault is decided from the hooks / stderr below
 			outcome = "closed-that-connection"
@@ -109,6 +146,13 @@ func (i *Inst) RunHostile(s *HsScript, tw *TraceWriter, rng *rand.Rand) error {
 		}
 		// give the gateway a moment, then end the connection: the handler must return
 		p.Wait(mark, 150*time.Millisecond, func(e gw.Event) bool { return e.Cid == t.Cid && (e.Pt == "proc.exit" || e.Pt == "proc.step") })
+		if s.Phase == "stalled" {
+			// this client stays connected without reading: everybody else must still be served
+			time.Sleep(300 * time.Millisecond)
+			if !i.probe() || !i.probeTunnel(s.Script, rng) {
+				othersStarved = true
+			}
+		}
 		t.Close()
 		if idx, _ := p.Wait(mark, 3*time.Second, func(e gw.Event) bool { return e.Cid == t.Cid && e.Pt == "proc.exit" }); idx < 0 {
 			wedged = true
@@ -311,7 +355,10 @@ func (i *Inst) RunHostile(s *HsScript, tw *TraceWriter, rng *rand.Rand) error {
 		}
 	}
 	alive := p.Alive()
-	probeOK := alive && i.probe()
+	probeOK := alive && i.probe() && !othersStarved
+	if probeOK && s.Ep == "tunnel" {
+		probeOK = i.probeTunnel(s.Script, rng)
+	}
 	cfg := i.Cfg
 	tw.Line(M{"ev": "hostile", "script": s.ID, "ep": s.Ep, "cls": s.Cls, "phase": s.Phase, "cfg": M{"tls": cfg.Tls, "buffers": cfg.SendBuf > 0 || cfg.RecvBuf > 0, "auth": strings.Join(append([]string{cfg.Auth}, cfg.Auths...), "+")},
 		"transport": s.Transport, "panicked": panicked, "alive": alive, "authAlive": authAlive, "probeOK": probeOK, "wedged": wedged, "outcome": outcome,
